@@ -7,5 +7,27 @@ CHECKS = {
                      "acknowledged write, deleted/refused names answered 404 and listings equalled the live set. Unbounded histories cannot be enumerated; a reference-model "
                      "monitor over many short hostile histories is the strongest decision this family offers.",
                 note="Trusted: the harness's reference model and iCalendar canonicaliser (vf/icl.py); wsgiref-style environ construction; restart = process kill (CLI) or module reload + store-cache clear (WSGI)."),
+    "C02": dict(level="exploration", design="DESIGN.md section 4 C02",
+                technique="runtime monitoring: ETag observation table over request histories (9 protocol views per member per audit) + etag<->bytes bijection checker; Store-API histories for vdir/bare-git",
+                text="Held on the recorded histories: at every quiescent point all protocol views of a member reported one strong quoted ETag, and over each whole history "
+                     "ETag <-> served bytes was a bijection per path (same-byte rewrites, re-serialisations, reverts, restarts, unrelated writes included).",
+                note="Trusted: harness HTTP client and multistatus parser; quiescence (the harness is the only client)."),
+    "C07": dict(level="exploration", design="DESIGN.md section 4 C07",
+                technique="runtime monitoring: snapshot-diff oracle for sync-collection over all (earlier token, now) pairs sampled along histories + foreign-token probes",
+                text="Held on the recorded histories: every sync-collection report for the empty token, the previous token and random earlier tokens equalled the diff of the "
+                     "harness's own {name: etag} snapshots (changed with current ETag, removed as 404, nothing else, current token returned); never-issued tokens were never "
+                     "answered with a success.",
+                note="Trusted: snapshots taken by GET/PROPFIND at quiescent points; no DAV:limit."),
+    "C08": dict(level="exploration", design="DESIGN.md section 4 C08",
+                technique="runtime monitoring: fingerprint<->tag tables over all pairs of audited points of each collection history (hash join), interval classification (reads/refused/other-collection writes)",
+                text="Held on the recorded histories: different contents never shared a tag, equal contents+metadata always had the same tag on git collections, and tags never "
+                     "moved over intervals that contained only reads, refused requests or writes to other collections; all four tag views agreed.",
+                note="Trusted: content fingerprint from GET of every listed member; metadata from the harness's record of acknowledged property changes."),
+    "C09": dict(level="exploration", design="DESIGN.md section 4 C09",
+                technique="runtime monitoring: git CLI (rev-list, merge-base, ls-tree, status, fsck) as independent oracle after every step of request histories",
+                text="Held on the recorded histories: after every request the collection's repository had the previous head as ancestor, one single-parent tree-changing commit "
+                     "per successful changing write and none otherwise, HEAD's tree equal to the served members (blob ids recomputed by the harness), a clean `git status` on "
+                     "tree stores and a clean `git fsck --strict`.",
+                note="Trusted: git 2.39; the harness's classification of a step as changing (served-bytes fingerprint before/after)."),
 }
 NOT_APPLICABLE = {}
